@@ -24,6 +24,8 @@ func main() {
 		cmdVC(os.Args[2:])
 	case "check":
 		os.Exit(cmdCheck(os.Args[2:]))
+	case "sweep":
+		cmdSweep(os.Args[2:])
 	case "list":
 		cmdList(os.Args[2:])
 	default:
@@ -178,4 +180,82 @@ func buildLemmaVC(prog *Program, l *Lemma) *VC {
 	o := vc.obligeG("lemma", l.Name, "true", cond, 0)
 	o.Props = l.Props
 	return vc
+}
+
+// cmdSweep: zero-annotation safety sweep over all functions of the packages matching a suffix.
+func cmdSweep(args []string) {
+	fs := flag.NewFlagSet("sweep", flag.ExitOnError)
+	pkgSuffix := fs.String("pkg", "proc/redis", "package path suffix")
+	timeout := fs.Int("timeout", 5000, "ms")
+	fs.StringVar(&repoDir, "repo", repoDir, "repository")
+	fs.Parse(args)
+	prog := loadAll()
+	var keys []string
+	for k, fn := range prog.funcs {
+		root := fn
+		for root.Parent() != nil {
+			root = root.Parent()
+		}
+		if root.Pkg != nil && strings.HasSuffix(root.Pkg.Pkg.Path(), *pkgSuffix) && len(fn.Blocks) > 0 && !strings.HasPrefix(root.Name(), "init") {
+			keys = append(keys, k)
+		}
+	}
+	sort.Strings(keys)
+	dir, _ := os.MkdirTemp("/var/tmp", "govc-sweep-")
+	defer os.RemoveAll(dir)
+	var jobs []job
+	var vcs []*VC
+	for _, k := range keys {
+		vc, err := buildVCSafe(prog, k)
+		if err != nil {
+			fmt.Println("ERR", k, err)
+			continue
+		}
+		vcs = append(vcs, vc)
+		for _, o := range vc.obls {
+			if o.Expect == "sat" {
+				o.Result, o.Solver = "skipped", "none"
+				continue
+			}
+			jobs = append(jobs, job{vc, o})
+		}
+	}
+	SolveAll(jobs, dir, *timeout, 14)
+	tot, fail := 0, 0
+	for _, vc := range vcs {
+		var bad []string
+		for _, o := range vc.obls {
+			if o.Expect == "sat" {
+				continue
+			}
+			tot++
+			if o.Result != "unsat" {
+				fail++
+				bad = append(bad, fmt.Sprintf("      %-7s %s", o.Result, o.Name))
+			}
+		}
+		if len(bad) > 0 || len(vc.unsupported) > 0 {
+			fmt.Printf("%s: %d obligations\n", vc.name, len(vc.obls))
+			seen := map[string]bool{}
+			for _, u := range vc.unsupported {
+				if !seen[u] {
+					seen[u] = true
+					fmt.Println("      UNSUPPORTED:", u)
+				}
+			}
+			for _, b := range bad {
+				fmt.Println(b)
+			}
+		}
+	}
+	fmt.Printf("total %d obligations, %d not discharged, %d functions\n", tot, fail, len(vcs))
+}
+
+func buildVCSafe(prog *Program, key string) (vc *VC, err error) {
+	defer func() {
+		if r := recover(); r != nil {
+			err = fmt.Errorf("panic in VC generation of %s: %v", key, r)
+		}
+	}()
+	return buildVC(prog, key)
 }
